@@ -14,6 +14,8 @@ from secsgem.hsms.message import HsmsBlock, HsmsMessage
 
 import protorig
 
+threading.excepthook = lambda args: None  # library worker threads that die (e.g. a collection event sender) are observed by what they do not send
+
 
 def data_frame(stream, function, system, body=b"", w=False, session=0):
     return HsmsMessage(HsmsHeader(system, session, stream, function, w, 0, HsmsSType.DATA_MESSAGE), body).blocks[0].encode()
